@@ -27,11 +27,11 @@ import (
 // ---------------------------------------------------------------------------------------------
 
 type raftNet struct {
-	mu      sync.Mutex
-	nodes   map[uint64]*raftReplica
-	script  []byte // per message ordinal: 0 deliver, 1 drop, 2 duplicate, 3 delay
-	ordinal int
-	healed  bool
+	mu                           sync.Mutex
+	nodes                        map[uint64]*raftReplica
+	script                       []byte // per message ordinal: 0 deliver, 1 drop, 2 duplicate, 3 delay
+	ordinal                      int
+	healed                       bool
 	dropped, duplicated, delayed int
 }
 
@@ -340,6 +340,8 @@ func c20RaftProperty(t *rapid.T) {
 	keys := []*sim.Key{sim.KeyFor("ord-a"), sim.KeyFor("ord-b")}
 	next := map[int]uint64{}
 	restarts := 0
+	tsSeq := int64(0)
+	tsMode := rapid.IntRange(0, 2).Draw(t, "tsMode") // 0 increasing with the nonce, 1 decreasing, 2 arbitrary
 	skippedAfterRestart := 0
 	crashWithQueued := 0
 	inconclusive := ""
@@ -353,7 +355,16 @@ func c20RaftProperty(t *rapid.T) {
 		cnt := rapid.IntRange(1, 5).Draw(t, "txs")
 		for i := 0; i < cnt; i++ {
 			a := rapid.IntRange(0, 1).Draw(t, "acct")
-			tx := orderTx(keys[a], next[a], 0)
+			// the transaction's own timestamp orders the pool's ready index; clients' clocks need not agree with nonces
+			tsSeq++
+			ts := int64(100000) + tsSeq
+			switch tsMode {
+			case 1:
+				ts = int64(100000) - tsSeq
+			case 2:
+				ts = int64(100000) + int64(rapid.IntRange(-20, 20).Draw(t, "tsJitter"))
+			}
+			tx := orderTxTS(keys[a], next[a], 0, ts)
 			done := make(chan error, 1)
 			n := entry.node
 			go func() { done <- n.Prepare(tx) }()
